@@ -100,7 +100,7 @@ Definition show_bres (r : res_t bool) : string :=
 
 Definition show_ord (o : qordering) : string :=
   match o with
-  | OIncompatible => "C:i" | ONan => "C:n" | OPanic => "P"
+  | OIncompatible => "C:i" | ONan => "C:n"
   | OOk Lt => "C:<" | OOk Eq => "C:=" | OOk Gt => "C:>"
   end.
 
@@ -193,13 +193,19 @@ Definition show_break (k : breakkind) : string :=
   | ProcPanic => "P"
   end.
 
+Fixpoint value_units (v : value (T := Qc)) : list unit :=
+  match v with
+  | VQ q => [q_unit q]
+  | VL l => (fix go (l : list (value (T := Qc))) : list unit :=
+               match l with [] => [] | x :: r => (value_units x ++ go r)%list end) l
+  | _ => []
+  end.
+
 Fixpoint stmt_units (p : list (stmt (T := Qc))) : list unit :=
   match p with
   | [] => []
-  | SAssert (VQ q) :: r => q_unit q :: stmt_units r
-  | SAssertEq2 a b :: r =>
-      (match a with VQ q => [q_unit q] | _ => [] end ++ match b with VQ q => [q_unit q] | _ => [] end
-       ++ stmt_units r)%list
+  | SAssert v :: r => (value_units v ++ stmt_units r)%list
+  | SAssertEq2 a b :: r => (value_units a ++ value_units b ++ stmt_units r)%list
   | SAssertEq3 a b e :: r => q_unit a :: q_unit b :: q_unit e :: stmt_units r
   | _ :: r => stmt_units r
   end.
